@@ -121,6 +121,10 @@ def tlc(module, cfg, scratch, env=None, workers=1, timeout=900, xmx="3g", extra=
     # 4 s); serial GC + C1-only compilation brings the batch back to ~5 s
     jvm = (["-XX:+UseSerialGC", "-XX:TieredStopAtLevel=1"] if light else
            ["-XX:+UseParallelGC", f"-XX:ParallelGCThreads={max(2, min(workers, 8))}", "-XX:CICompilerCount=3"])
+    # (TLC leaves an empty tlc-* directory per run in java.io.tmpdir: keep them inside the scratch directory)
+    jtmp = Path(scratch) / "jtmp"
+    jtmp.mkdir(parents=True, exist_ok=True)
+    jvm = jvm + [f"-Djava.io.tmpdir={jtmp}"]
     cmd = ["java"] + jvm + [f"-Xmx{xmx}", "-cp", TLA_CP, "tlc2.TLC",
            "-workers", str(workers), "-metadir", str(meta), "-cleanup", "-noGenerateSpecTE",
            "-config", str(cfg)]
